@@ -43,6 +43,26 @@ pub fn states(tier: &str) -> Vec<State> {
             }
         }
     }
+    // an own member next to a member that is a ref= to a global element of the OTHER namespace, in both orders
+    if let Some(string_ty) = types.iter().position(|(l, _)| l == "xs:string") {
+        for target in ["GlobalAnonB", "GlobalTypedB", "GlobalBuiltinB"] {
+            for occ in [0usize, 1] {
+                for own_first in [true, false] {
+                    let mut s = c02::seed();
+                    let own = c02::MemberProd::Elem { ty: string_ty, occ: 0, ctx: "sequence" };
+                    let foreign = c02::MemberProd::Ref { target, occ };
+                    if own_first {
+                        c02::apply_member(&mut s, &own, &types, 1);
+                        c02::apply_member(&mut s, &foreign, &types, 2);
+                    } else {
+                        c02::apply_member(&mut s, &foreign, &types, 1);
+                        c02::apply_member(&mut s, &own, &types, 2);
+                    }
+                    out.push(State { label: format!("own element {} ref={target} min={}", if own_first { "then" } else { "after" }, c02::OCCS[occ].0), depth: 2, set: s });
+                }
+            }
+        }
+    }
     // members inherited from / referring to other namespaces
     out.extend(c08::cross_namespace_states(tier));
     out.extend(c08::three_namespace_chains(tier).into_iter().filter(|s| s.depth == 2));
